@@ -402,6 +402,8 @@ class RF24Mesh(RF24MeshNoMaster):
                 self.frame_buf.header.to_node = self.frame_buf.header.from_node
                 self.frame_buf.message = struct.pack("<H", new_addr)
                 if self.frame_buf.header.from_node != NETWORK_DEFAULT_ADDR:
+                    # the reply originates here (its NETWORK_ACK must come back to this node)
+                    self.frame_buf.header.from_node = self._addr
                     if not self._write(self.frame_buf.header.to_node, TX_NORMAL):
                         self._write(self.frame_buf.header.to_node, TX_NORMAL)
                 else:
